@@ -168,3 +168,31 @@ theorem tc_validateClaimsData (now : Int) (c : Val) :
   simp only [timeCount_append, timeCount_ite, timeCount_timeI, timeCount_nil, gt_iff_lt]
 
 end Jwt
+
+/-! ### which parts of validation raise blocking issues -/
+namespace Jwt
+
+/-- `IsBlocking(false)` -/
+def blk (l : List Issue) : Bool := l.any (·.blocking)
+
+theorem isBlocking_false_eq (l : List Issue) : isBlocking l false = blk l := by
+  simp [isBlocking, blk]
+
+@[simp] theorem blk_nil : blk [] = false := rfl
+@[simp] theorem blk_append (a b : List Issue) : blk (a ++ b) = (blk a || blk b) := by simp [blk]
+@[simp] theorem blk_errI : blk errI = true := rfl
+@[simp] theorem blk_warnI : blk warnI = false := rfl
+@[simp] theorem blk_timeI : blk timeI = false := rfl
+@[simp] theorem blk_errIf (b : Bool) : blk (errIf b) = b := by cases b <;> rfl
+@[simp] theorem blk_ite (c : Prop) [Decidable c] (a b : List Issue) :
+    blk (if c then a else b) = if c then blk a else blk b := by split <;> rfl
+@[simp] theorem blk_flatMap {α} (l : List α) (f : α → List Issue) :
+    blk (l.flatMap f) = l.any (fun x => blk (f x)) := by
+  induction l with
+  | nil => rfl
+  | cons a l ih => simp [List.flatMap_cons, ih]
+
+@[simp] theorem blk_validateClaimsData (now : Int) (c : Val) : blk (validateClaimsData now c) = false := by
+  unfold validateClaimsData; simp
+
+end Jwt
